@@ -182,14 +182,16 @@ struct Watch {
     slots: Vec<Mutex<Option<(Instant, Vec<u8>)>>>,
 }
 
-/// replay the saved input in two fresh processes; true if neither finishes within twice the watchdog
+/// replay the saved input in four fresh processes; true if at least one of them does not finish
+/// within twice the watchdog either (a deadlock needs its schedule, so not every replay hangs;
+/// a case that takes milliseconds exceeding 60 s here and 120 s there is not slowness)
 fn confirm_hang(path: &Path, watchdog_s: u64) -> bool {
     let exe = match std::env::current_exe() {
         Ok(e) => e,
         Err(_) => return false,
     };
     let mut children: Vec<std::process::Child> = Vec::new();
-    for _ in 0..2 {
+    for _ in 0..4 {
         match std::process::Command::new(&exe)
             .arg("replay")
             .arg(path)
@@ -203,12 +205,12 @@ fn confirm_hang(path: &Path, watchdog_s: u64) -> bool {
     }
     let start = Instant::now();
     let limit = Duration::from_secs(2 * watchdog_s);
-    let mut finished = false;
-    while start.elapsed() < limit && !finished {
+    let mut finished = vec![false; children.len()];
+    while start.elapsed() < limit && !finished.iter().all(|f| *f) {
         std::thread::sleep(Duration::from_millis(500));
-        for c in children.iter_mut() {
+        for (c, f) in children.iter_mut().zip(finished.iter_mut()) {
             if let Ok(Some(_)) = c.try_wait() {
-                finished = true;
+                *f = true;
             }
         }
     }
@@ -216,7 +218,7 @@ fn confirm_hang(path: &Path, watchdog_s: u64) -> bool {
         let _ = c.kill();
         let _ = c.wait();
     }
-    !finished
+    finished.iter().any(|f| !*f)
 }
 
 pub struct Outcome {
@@ -296,7 +298,7 @@ pub fn explore(prop: &Prop, tier: Tier, seed: u64) -> Outcome {
                             let path = write_replay(prop.id, &sig, bytes, "case exceeded the watchdog", tier, seed, &json!({}));
                             if prop.hang_is_violation && confirm_hang(&path, prop.watchdog_s) {
                                 println!(
-                                    "  failure [{}]: a case did not finish within {} s and, replayed twice in fresh processes, did not finish within {} s either",
+                                    "  failure [{}]: a case did not finish within {} s and, replayed in four fresh processes, at least once did not finish within {} s either",
                                     sig,
                                     prop.watchdog_s,
                                     2 * prop.watchdog_s
